@@ -1,10 +1,11 @@
 SPECIFICATION Spec
-CONSTANTS Workers = {1, 2} MaxTrials = 7 MaxRetry = 1 AtomicCAS = FALSE
+CONSTANTS Workers = {1, 2} MaxTrials = 7 MaxRetry = 1 AtomicCAS = FALSE MaxWrites = 1
 CONSTANT InitStates <- MCInit
 INVARIANT FailedByAtMostOne
 INVARIANT CallbackAtMostOnce
 INVARIANT RetriesBounded
 INVARIANT AtMostOneRetryPerFailure
 INVARIANT HistoryCorrect
+INVARIANT RetryCarriesContent
 PROPERTY Untouched
 CHECK_DEADLOCK FALSE
